@@ -15,10 +15,11 @@ type ment struct {
 }
 
 type omap struct {
-	kt   types.Type
-	ents []*ment
-	idx  map[interface{}]*ment
-	nsym int // number of live entries without canonical key
+	kt    types.Type
+	ents  []*ment
+	idx   map[interface{}]*ment
+	nsym  int // number of live entries without canonical key
+	nview int // number of entries ever stored with a key that is a view of byte cells (unsafe string)
 }
 
 func makeMap(kt types.Type) *omap {
@@ -32,9 +33,49 @@ func (m *omap) len() int {
 	return len(m.ents)
 }
 
+// refreshViews: a string key made with an unsafe conversion is a view of bytes that the program may
+// overwrite afterwards. Go does not notice; a small map (one bucket) then simply finds the entry
+// under the new content. The canonical keys of such entries are recomputed from the current bytes.
+func (m *omap) refreshViews(i *interpreter) {
+	for _, e := range m.ents {
+		sv, isView := e.k.(symstr)
+		if !isView || !e.hasCK {
+			continue
+		}
+		ck, ok := canonKey(m.kt, sv)
+		if !ok || ck == e.ck {
+			continue
+		}
+		oldCK := e.ck
+		ownedOld := m.idx[oldCK] == e
+		if ownedOld {
+			delete(m.idx, oldCK)
+		}
+		e.ck = ck
+		prev, hadPrev := m.idx[ck]
+		if !hadPrev {
+			m.idx[ck] = e
+		}
+		i.logUndo(func() {
+			if !hadPrev {
+				delete(m.idx, ck)
+			} else {
+				m.idx[ck] = prev
+			}
+			e.ck = oldCK
+			if ownedOld {
+				m.idx[oldCK] = e
+			}
+		})
+	}
+}
+
 func (m *omap) find(fr *frame, k value) *ment {
 	if m == nil {
 		return nil
+	}
+	if m.nview > 0 {
+		m.refreshViews(fr.i)
 	}
 	ck, ok := canonKey(m.kt, k)
 	if ok && m.nsym == 0 {
@@ -72,10 +113,24 @@ func (m *omap) insert(fr *frame, k, v value) {
 	i := fr.i
 	if e := m.find(fr, k); e != nil {
 		i.wr(&e.v, v)
+		// assigning through an existing string key also stores the new key's pointer
+		// (runtime.mapassign_faststr: "k.str = key.str"): the entry now aliases the new key's bytes
+		if sv, isView := k.(symstr); isView && e.hasCK {
+			if _, concrete := goString(sv); concrete {
+				oldK := e.k
+				e.k = sv
+				m.nview++
+				i.logUndo(func() { e.k = oldK; m.nview-- })
+			}
+		}
 		return
 	}
 	e := &ment{k: k, v: v}
 	e.ck, e.hasCK = canonKey(m.kt, k)
+	if _, isView := k.(symstr); isView && e.hasCK {
+		m.nview++
+		i.logUndo(func() { m.nview-- })
+	}
 	m.ents = append(m.ents, e)
 	if e.hasCK {
 		m.idx[e.ck] = e
